@@ -25,6 +25,12 @@ that carries a direction mark is only cut when the atom before the mark is the l
 attaches a mark to the atom before it and to the NEXT atom of the same fragment text, so any atom written after `P/[$L]`
 would take the mark over - outside the quantifier); a double bond carries no mark.
 
+Isolated stereocentres (added): for every labelled stereocentre of every molecule the cut set that cuts ALL bonds of that
+atom is generated in both tiers, whatever the tier's bound on the number of cuts - the centre is then a fragment of ONE
+atom, `[$a][C;x=R][$b][$c]`, which the fragment reader handles on a path of its own; also that cut set plus one more cut.
+EXTRA_MOLS (defined here) adds fully substituted centres (four heavy neighbours, `[C;x=R][$][$][$][$]` when isolated: five
+fragments, all 120 orders), a centre that is the first atom of the molecule, and two adjacent centres.
+
 Known on both trees (finding F12): when the atoms l1, a1, a2, l2 of a marked double bond end up in different fragments,
 the relation depends on the order in which the base graph lists the fragments (pysmiles compares node indices); with
 two marked substituents on one atom the same comparison can also reject the molecule ('Conflicting cis/trans
@@ -42,6 +48,26 @@ LEVEL = 'exploration'
 P_TARGETS = []
 BUDGET = {'quick': 30.0, 'thorough': 300.0}
 CHUNK = 6
+# further molecules (same typed-in form as gen.gr_resolver_inputs.STEREO_MOLS: symbol, parent, order, mark, chirality label)
+EXTRA_MOLS = {
+    # 1-bromo-1-chloro-1-fluoroethane: a fully substituted centre
+    'quat': [('C', None, 0, '', None), ('C', 0, 1, '', 'R'), ('F', 1, 1, '', None), ('Cl', 1, 1, '', None), ('Br', 1, 1, '', None)],
+    # the centre is the first atom written
+    'quat-first': [('C', None, 0, '', 'S'), ('F', 0, 1, '', None), ('Cl', 0, 1, '', None), ('Br', 0, 1, '', None), ('C', 0, 1, '', None),
+                   ('O', 4, 1, '', None)],
+    # two centres, one fully substituted, separated by one atom
+    'quat-two': [('O', None, 0, '', None), ('C', 0, 1, '', None), ('C', 1, 1, '', 'S'), ('F', 2, 1, '', None), ('Cl', 2, 1, '', None),
+                 ('C', 2, 1, '', None), ('C', 5, 1, '', 'R'), ('Br', 6, 1, '', None), ('N', 6, 1, '', None)],
+    # two adjacent centres with different labels
+    'adjacent': [('N', None, 0, '', None), ('C', 0, 1, '', 'R'), ('F', 1, 1, '', None), ('C', 1, 1, '', 'S'), ('Cl', 3, 1, '', None),
+                 ('O', 3, 1, '', None)],
+    # a fully substituted centre next to a marked double bond
+    'quat-ez': [('Br', None, 0, '', None), ('C', 0, 1, '', 'S'), ('F', 1, 1, '', None), ('N', 1, 1, '', None), ('C', 1, 1, '', None),
+                ('C', 4, 1, '/', None), ('C', 5, 2, '', None), ('Cl', 6, 1, '/', None)],
+}
+MOLS = dict(gr.STEREO_MOLS)
+MOLS.update(EXTRA_MOLS)
+
 BOUNDS = {
     'quick': {'molecules': len(gr.STEREO_MOLS), 'heavy_atoms': '4..8', 'stereo_double_bonds': '0..2', 'stereocentres': '0..2',
               'cuts': 'every admissible set of <= 2 cut bonds', 'fragment_orders': 'all permutations (<= 6)', 'constructors': ['from_graph', 'from_string']},
@@ -76,9 +102,50 @@ def admissible(mol, cuts):
     return True
 
 
+def isolating_cuts(mol, i):
+    """The cut set that makes atom i a fragment of its own: the bond to its parent and the bonds to all its children."""
+    return sorted(([i] if mol[i][1] is not None else []) + [j for j, a in enumerate(mol) if a[1] == i])
+
+
+def isolated_centre_cases(tier):
+    """Every labelled centre of every molecule (gr.STEREO_MOLS and EXTRA_MOLS) cut out as a one-atom fragment; the same
+    with one more cut elsewhere (quick: the first two such cuts, thorough: all)."""
+    seen = set()
+    for name, mol in MOLS.items():
+        for i, a in enumerate(mol):
+            if not a[4]:
+                continue
+            iso = isolating_cuts(mol, i)
+            more = [c for c in range(1, len(mol)) if c not in iso]
+            for extra in [()] + [(c,) for c in (more[:2] if tier == 'quick' else more)]:
+                cuts = sorted(set(iso) | set(extra))
+                if len(cuts) > (4 if tier == 'quick' else 5) or (name, tuple(cuts)) in seen or not admissible(mol, cuts):
+                    continue
+                seen.add((name, tuple(cuts)))
+                yield {'id': 'stereo/%s/%s' % (name, '-'.join(map(str, cuts))), 'mol': name, 'cuts': cuts, 'isolates': i}
+
+
+def extra_mol_cases(tier):
+    """The ordinary enumeration (every admissible cut set up to the tier's size) for EXTRA_MOLS."""
+    max_cuts = 2 if tier == 'quick' else 3
+    for name, mol in EXTRA_MOLS.items():
+        for k in range(0, max_cuts + 1):
+            for cuts in itertools.combinations(range(1, len(mol)), k):
+                if admissible(mol, cuts):
+                    yield {'id': 'stereo/%s/%s' % (name, '-'.join(map(str, cuts)) or 'uncut'), 'mol': name, 'cuts': list(cuts)}
+
+
 def cases(tier, seed):
+    done = set()
+    # the isolated centres first: few, and the only cases in which a labelled atom is a fragment of its own
+    for c in isolated_centre_cases(tier):
+        done.add((c['mol'], tuple(c['cuts'])))
+        yield c
     for c in gr.stereo_cases(tier, seed):
-        if admissible(gr.STEREO_MOLS[c['mol']], c['cuts']):
+        if (c['mol'], tuple(c['cuts'])) not in done and admissible(gr.STEREO_MOLS[c['mol']], c['cuts']):
+            yield c
+    for c in extra_mol_cases(tier):
+        if (c['mol'], tuple(c['cuts'])) not in done:
             yield c
 
 
@@ -159,7 +226,7 @@ def _evaluate(mol, fine, expected):
 
 def check_case(case):
     import cgsmiles
-    mol = gr.STEREO_MOLS[case['mol']]
+    mol = MOLS[case['mol']]
     cuts = list(case['cuts'])
     key = repr((case['mol'], tuple(cuts)))
     expected = {}
@@ -203,7 +270,9 @@ def check_case(case):
             # the input is well formed by construction: a rejection is a failure; in an order other than the
             # construction order it is the order dependence of finding F12 showing as an exception
             results[(perm, how)] = ([('exception', '%s: %s' % (type(e).__name__, str(e)[:200]))], list(expected))
-    ident_ok = not results[(identity, 'graph')][0]
+    # the construction order reproduces the written relations (problems of another clause, e.g. a lost chirality label, do
+    # not change how an order-dependent relation is classified)
+    ident_ok = not any(cl.startswith('ez-') or cl in ('exception', 'not-the-constructed-molecule') for cl, _ in results[(identity, 'graph')][0])
     seen_sig = set()
     for (perm, how), (probs, wrong) in results.items():
         for clause, detail in probs:
